@@ -35,6 +35,8 @@ class AdjHooks(Hooks):
         self.rg = requires_grad
         self.calls = []          # dict(kind, outputs, inputs, go, kwargs, node, fi, result)
         self.state_calls = []
+        self.grad_depth = 0      # nesting of `with torch.enable_grad()` blocks
+        self.graphless = {}      # atom -> (slot name) of forward-SDE values computed while grad mode was off
         self.y, self.adj_y = nf.sym("y"), nf.sym("adj_y")
 
     def tensor_attr(self, interp, recv, name, node, fi):
@@ -58,6 +60,13 @@ class AdjHooks(Hooks):
             return self.rg
         return NotImplemented
 
+    def on_with(self, interp, ctx_text, entering, fi):
+        if ctx_text.startswith("torch.enable_grad"):
+            self.grad_depth += 1 if entering else -1
+
+    def grad_mode_on(self):
+        return self.rg or self.grad_depth > 0
+
     def _autograd(self, kind, args, kwargs, node, fi):
         outputs = kwargs.get("outputs", args[0] if args else None)
         inputs = kwargs.get("inputs", args[1] if len(args) > 1 else None)
@@ -66,8 +75,10 @@ class AdjHooks(Hooks):
         tag = "VJP" if kind == "vjp" else "JVP"
         go_v = Rat.lift(go) if go is not None else Rat.const(1)
         res = [nf.linear(tag, (Rat.lift(outputs).key(), Rat.lift(i).key()), go_v) for i in ins]
+        no_graph = sorted({self.graphless[a] for o in (outputs if isinstance(outputs, (list, tuple)) else [outputs])
+                           if isinstance(o, Rat) for a in nf.all_atoms(o) if a in self.graphless})
         self.calls.append(dict(kind=kind, outputs=outputs, inputs=ins, go=go, kwargs=dict(kwargs), node=node, fi=fi,
-                               result=res))
+                               result=res, no_graph=no_graph))
         return res
 
     def on_call(self, interp, callee, args, kwargs, node, fi):
@@ -88,6 +99,19 @@ def make_adjoint(model, sde_type, noise_type, requires_grad):
     fwd = solverkit.make_sde()
     fwd.attrs["sde_type"], fwd.attrs["noise_type"] = sde_type, noise_type
     hooks = AdjHooks(requires_grad)
+    # every forward-SDE evaluation records whether autograd was recording at that moment
+    for slot, intr in list(fwd.attrs.items()):
+        if isinstance(intr, Intrinsic):
+            def wrapped(it, a, k, n, f, _orig=intr.fn, _slot=slot):
+                out = _orig(it, a, k, n, f)
+                if not hooks.grad_mode_on():
+                    for o in (out if isinstance(out, (tuple, list)) else (out,)):
+                        if isinstance(o, Rat):
+                            for atom in nf.all_atoms(o):
+                                if atom[0] in ("fn", "bil", "lin"):
+                                    hooks.graphless[atom] = _slot
+                return out
+            fwd.attrs[slot] = Intrinsic(intr.name, wrapped)
     it = Interp(model, hooks)
     theta = nf.sym("theta")
     obj = it.instantiate(cls, [fwd, [theta], ["shape0", "shape1"]], {})
@@ -246,9 +270,16 @@ def r11_2(ctx):
             ent["cells"].append(cell)
             # the value create_graph evaluated to, per grad mode of the scenario (name-free)
             ent["cg_values"].add((cell.endswith("grad=on"), c["kwargs"].get("create_graph", False)))
+            if c.get("no_graph"):
+                ent["no_graph"] = sorted(set(ent.get("no_graph", [])) | set(c["no_graph"]))
     for (fkey, dg), ent in sorted(seen.items()):
         fi, node = ent["fi"], ent["node"]
         rep.analysed(fi)
+        rep.check(not ent.get("no_graph"), "R11.2", astq.loc(fi, node), f"{fkey}::R11.2::outputs-have-graph::{dg}",
+                  f"`{ast.unparse(node)[:70]}...` differentiates a value of the forward SDE (`{', '.join(ent.get('no_graph') or [])}`) "
+                  f"that was computed outside `with torch.enable_grad()`: inside the adjoint's backward pass grad mode is off, the "
+                  f"value has no graph, and -- because of allow_unused / zero-filling -- the vector-Jacobian product is silently zero",
+                  "differentiated values are computed under enable_grad")
         au = astq.kwarg(node, "allow_unused")
         cg = astq.kwarg(node, "create_graph")
         ok_au = isinstance(au, ast.Constant) and au.value is True
